@@ -45,6 +45,9 @@ THEOREMS = [
     "MysticVerif.C13.member_idem",
     "MysticVerif.C13.join_and_all_hold",
     "MysticVerif.C13.join_or_some_holds",
+    "MysticVerif.C13.compose_identity",
+    "MysticVerif.C13.join_and_identity",
+    "MysticVerif.C13.join_or_identity",
 ]
 
 NAMES = ["a", "b", "c", "d", "spam", "eggs", "foo", "bar", "u", "v", "w", "p", "q", "alpha", "beta", "zed"]
@@ -502,7 +505,13 @@ def build_request(case, obs):
         rs.append("(%d %s %s)" % (i, T.CMP_SYM[cmp], T.sexp(T.parse_expr(T.print_expr(term, T.xj), consts))))
     cs = ["(%d %s)" % (c[0], T.sexp(c[1])) for c in codes]
     body = "(tol %s) (rel %s) (x %s) (rels (%s)) (codes (%s))" % (f2b(tol), f2b(rel), fl(case["x"]), " ".join(rs), " ".join(cs))
-    info = {"order": order, "expected_order": expected_order(rels), "inexact": any(T.inexact(c[1]) for c in codes)}
+    def _has(e, pred):
+        return isinstance(e, tuple) and (pred(e) or any(_has(t, pred) for t in e[1:]))
+    npfn = any(_has(c[1], lambda e: e[0] == "app1") for c in codes)
+    mayraise = any(_has(c[1], lambda e: e[0] == "/" or (e[0] == "app2" and e[3][0] == "n" and e[3][1] < 0)) for c in codes)
+    # numpy scalars (the values of sqrt, exp, ..) divide by zero / raise zero to a negative power without raising
+    info = {"order": order, "expected_order": expected_order(rels), "inexact": any(T.inexact(c[1]) for c in codes),
+            "np_mayraise": npfn and mayraise}
     ct = case.get("ctype"); join = case.get("join")
     if join:
         info["mode"] = join
@@ -846,9 +855,17 @@ def check_case(case, obs, rep, info, hist):
     if mode in ("and_", "or_"):
         bump(hist, "join:%s:%s" % (mode, mres))
         drew = obs.get("drew", 0)
-        nan = any(v != v for v in obs.get("y", [])) or any(v != v for v in case["x"])
+        my_ = floats_of(r[1]["y"]) if "y" in r[1] else []
+        nan = any(v != v for v in obs.get("y", [])) or any(v != v for v in case["x"]) or any(v != v for v in my_)
         if nan:
             bump(hist, "join:nan-skipped")         # python compares list items by identity first: nan == nan there
+        elif "y" not in obs:
+            if obs.get("raises") == "overflow":
+                bump(hist, "join:overflow-skipped")  # python's float ** raises OverflowError, which the combinators do not catch
+            else:
+                fs.append(Finding("correspondence", "join/diverges", "implementation raised %r, model %s" % (obs.get("raises"), rep), cdesc))
+        elif info.get("np_mayraise") and (mres != "success" or drew or obs.get("join_failed") or not same_vec(my_, obs["y"])):
+            bump(hist, "join:numpy-scalar-no-raise-skipped")
         elif mres == "stuck":
             if not drew:
                 fs.append(Finding("correspondence", "join/draws", "the model needs a random draw, the implementation drew none (result %r)" % (obs.get("y"),), cdesc))
@@ -868,7 +885,7 @@ def check_case(case, obs, rep, info, hist):
         bump(hist, "res:raises")
         if "raises" in obs and obs["raises"] in ("zerodiv", "overflow"):
             pass
-        elif "y" in obs and any(not math.isfinite(v) for v in obs["y"]):
+        elif "y" in obs and (any(not math.isfinite(v) for v in obs["y"]) or info.get("np_mayraise")):
             bump(hist, "res:raises-vs-numpy-inf")          # numpy scalars divide by zero without raising
         else:
             fs.append(Finding("correspondence", "chain/diverges", "model raises (zero division / index), implementation gave %r" %
@@ -1008,8 +1025,11 @@ def replay(path):
             return tuple(tup(u) if isinstance(u, list) else u for u in t)
         case["rels"] = [(r[0], r[1], tup(r[2])) for r in case["rels"]]
         case["scheme"] = tuple(case["scheme"])
-        obs = run_impl(case); mon = monitor(case, obs)
+        for key in ("rich", "consts", "ctype", "join", "selfcheck"):
+            case.setdefault(key, None)
+        obs = run_impl(case)
         line, info = build_request(case, obs) if "docs" in obs else (None, "generation raised")
+        mon = monitor(case, obs, info if line else None)
     print("implementation:", obs)
     rc = 0
     if line:
@@ -1037,21 +1057,35 @@ def main(tier, seed):
     def search_more():
         r = framework.run_shards("c13", "run_shard", PID, seed + 7919, 32, 600, tier)
         return r["findings"]
-    rule = ("cases: generated constraint texts (1-4 lines, every comparator incl. '==', right-hand sides of depth 0-2 over "
-            "+ - * / unary minus with int / float / huge / tiny literals, 1-13 variables, base-name and named-variable schemes, "
-            "nvars given or inferred, default and custom tol/rel) compiled by the real generate_solvers/generate_constraint and "
+    rule = ("cases: generated constraint texts (1-4 lines, every comparator incl. '==', right-hand sides of depth 0-3 over "
+            "+ - * / unary minus, and in 45% of the small-regime cases ** (exponents -2..4), abs, min/max (2-3 arguments, ties), sqrt floor ceil "
+            "exp log sin cos, sum/mean/spread over variable lists, names bound through locals= (incl. names shadowing math/numpy names), "
+            "with int / float / huge / tiny literals, 1-13 variables, base-name and named-variable schemes, "
+            "nvars given or inferred, default and custom tol/rel) compiled by the real generate_solvers/generate_constraint - default nesting, "
+            "ctype= one coupler or one per solver out of inner/outer/inner_proxy/outer_proxy (22%), join=and_ (14%), join=or_ (10%) - and "
             "evaluated at points placed on the boundary, one ulp either side, on/around the tolerance band, huge and tiny "
-            "magnitudes; plus boundsconstrain(symbolic=True/False). non-trivial = the compiled function changed the input")
+            "magnitudes; 6% of the cases re-check the function after re-importing mystic.symbolic or from 4 threads; "
+            "plus boundsconstrain(symbolic=True/False). non-trivial = the compiled function changed the input")
     tb = ["Lean 4.33 kernel; axioms per theorem listed under coverage.theorems",
           "translator harness/symtrans.py (python ast -> Emitted.Expr) is untrusted but validated per case: the Lean evaluation of "
           "the translated statements must reproduce the real compiled function bit for bit",
           "the relation a text states is the generator's own structure printed to text (never read back from mystic)",
           "recognise (Model/Emitted.lean) is proved sound in Props/C13.lean; it is run on what the current tree emits",
+          "composition modes: Model/EmittedJoin.lean (compose = the coupler fold; joinAnd/joinOr = Model/Combinators and_/or_ over the solver "
+          "members); the driver runs compose? / joinAnd / joinOr with an empty draw stream: a run that needs a random draw is 'stuck' and must "
+          "coincide with the implementation drawing (random.randint/random patched to count); success/failure of the combinators is observed "
+          "through their documented onfail keyword",
           "boundsconstrain(symbolic=True): symbolic_bounds' text is modelled as the relation list x_j >= lo_j.., x_j <= hi_j..; "
           "boundsconstrain(symbolic=False) is monitored only (impose_bounds belongs to C16)"]
     assumptions = ["IEEE binary64 + - * / and comparisons agree between Lean Float and CPython/numpy scalars",
                    "division by zero: python floats raise, numpy scalars give inf/nan; both count as 'raises' for the model",
                    "strictness / '!=' are checked on the implementation only where rounding does not absorb the tolerance term "
                    "(rhs -+ tol(rhs) != rhs); the theorems are over ordered fields",
-                   "right-hand sides use + - * / and unary minus only (no function calls, powers, or numpy reductions)"]
+                   "sqrt floor ceil abs are IEEE-exact; exp log sin cos (numpy kernels vs libm) and ** (C pow) may differ in the last ulps: "
+                   "a 1e-6 tolerance applies to cases that use them and is counted separately (cmp:toleranced-inexact-fn); "
+                   "sum/mean/spread are compared in the exactness regime (dyadic points: every partial sum exact)",
+                   "numpy scalars (values of sqrt, exp, ..) do not raise on division by zero / 0**negative; python floats do: cases that mix both "
+                   "are accepted when model and code differ only in that (counted: res:raises-vs-numpy-inf, join:numpy-scalar-no-raise-skipped)",
+                   "python compares list items by identity before ==, so a nan inside a vector equals itself in constraints.and_/or_: join cases "
+                   "with a nan anywhere are not compared (join:nan-skipped); runs that draw random numbers are not compared (join:random-draws-skipped)"]
     return framework.finish(PID, tier, seed, t0, proof, run, rule, tb, assumptions, search_more=search_more)
